@@ -3,7 +3,7 @@ import c06
 
 
 def run(chk):
-    c06.run(chk, props=['Props/C07.lean'], prop='C07', bias=['abandon', 'abandon', 'abandon', ''])
+    c06.run(chk, props=['Props/C07.lean', 'Props/C07Wakeup.lean'], prop='C07', bias=['abandon', 'abandon', 'abandon', ''])
 
 
 replay = c06.replay
